@@ -1,6 +1,8 @@
 /- The fact values the C09 theorems are proved for (and the oracle runs the model with). -/
 import EinoV.Model.C09
 import EinoV.Model.C09Err
+import EinoV.Model.C09Cb
+import EinoV.Model.C09Flight
 namespace EinoV.Expected.C09
 def runAllocsChannelManager : Bool := true
 def channelsBuiltPerRun : Bool := true
@@ -16,6 +18,12 @@ def toolsNodeRunPathWrites : List String := []
 def storedRunErrors : List String := []
 def errorPathMutators : List String :=
   ["compose/error.go:wrapGraphNodeError:ie.nodePath.path", "compose/error.go:wrapStreamWrapperError:ie.streamWrapperPath"]
+def graphHandlersCollectCopies : Bool := true
+def nodeHandlersCollectCopies : Bool := true
+def appendHandlersCopies : Bool := true
+def cbFacts : EinoV.C09.Cb.Facts := ⟨graphHandlersCollectCopies, nodeHandlersCollectCopies, appendHandlersCopies⟩
+def runPathSharedSync : List String := []
+def sharedSyncOnRunPath : Bool := !runPathSharedSync.isEmpty
 def runErrorsFresh : Bool := EinoV.C09.Err.freshOf storedRunErrors
 def alloc : EinoV.C09.Alloc :=
   EinoV.C09.allocOf runAllocsChannelManager channelsBuiltPerRun channelManagerFieldsFresh
